@@ -624,6 +624,15 @@ func (q *sleepyQ) Head() (quartz.ScheduledJob, error) {
 	return j, e
 }
 
+// the API-side calls are slow as well (a persistent queue): a wake-up sent before the change is
+// published would let the loop look at the old contents
+func (q *sleepyQ) Push(j quartz.ScheduledJob) error { q.nap(); q.nap(); e := q.JobQueue.Push(j); return e }
+func (q *sleepyQ) Remove(k *quartz.JobKey) (quartz.ScheduledJob, error) {
+	j, e := q.JobQueue.Remove(k)
+	q.nap()
+	return j, e
+}
+
 type freeResult struct {
 	Kind    string `json:"kind"`
 	Iter    int    `json:"iter"`
